@@ -662,3 +662,27 @@ Definition two_use (c : ckind * ncall) : bool := nc_use (snd c).
 Definition two_keyok (kx : ckind -> kexpr) (c : ckind * ncall) : bool := nc_keyok (kx (fst c)) (snd c).
 Definition codes_of_string (s : string) : list nat :=
   map Ascii.nat_of_ascii (list_ascii_of_string s).
+
+(* ------------------------------------------------------------------ *)
+(* the size component of the key as a FINITE MAP index -> size.
+   `items` is the list of (index, size) 2-tuples of tuple(size_dict.items()). *)
+Definition simple (v : pyval) : bool :=
+  match v with PTuple _ | PFrozen _ | PList _ | PDict _ => false | _ => true end.
+Definition item_key (it : pyval) : pyval := match it with PTuple (k :: _) => k | _ => PNone end.
+Definition item_val (it : pyval) : pyval := match it with PTuple (_ :: v :: _) => v | _ => PNone end.
+Definition item_ok (it : pyval) : bool :=
+  match it with PTuple [k; v] => simple k | _ => false end.
+(* size_dict[k] *)
+Fixpoint dict_get (items : list pyval) (k : pyval) : option pyval :=
+  match items with
+  | [] => None
+  | it :: items' => if py_eqb (item_key it) k then Some (item_val it) else dict_get items' k
+  end.
+Definition lookup_agree (a b : option pyval) : Prop :=
+  match a, b with
+  | Some v, Some w => py_eqb v w = true
+  | None, None => True
+  | _, _ => False
+  end.
+(* the lossy alternative: tuple(size_dict.values()) *)
+Definition values_of_items (items : list pyval) : pyval := PTuple (map item_val items).
